@@ -56,6 +56,8 @@ def coq_obs(case, obs):
 
 
 def shrink_candidates(case):
+    if sc.has_push_comp(case):
+        return
     for c in sc.shrink_candidates(case):
         yield c
 
@@ -119,11 +121,17 @@ def generate(rng, tier):
     # rings resolved by a CALENDAR delay: monitor only (outside the integer-time Coq model)
     for _ in range(20 if tier == "quick" else 300):
         cases.append(sc.gen_calendar_ring(rng))
+    # the consumer behind a DelayToPull asks for times before its (later starting) source's first publication
+    for _ in range(24 if tier == "quick" else 400):
+        cases.append(sc.gen_ring_staggered(rng, kind="topull", src_late=True))
+    # rings through a PUSH-based component with outputs: monitor only (outside the model's component kinds)
+    for _ in range(24 if tier == "quick" else 400):
+        cases.append(sc.gen_push_merger(rng))
     return cases
 
 
 def model_applies(case):
-    return not sc.has_calendar(case)
+    return not sc.has_calendar(case) and not sc.has_push_comp(case)
 
 
 def cycles_of(case):
@@ -197,6 +205,8 @@ def _connect_expect(case):
 
 
 def monitor(case, obs):
+    if sc.has_push_comp(case):
+        return sc.monitor_push_merger(case, obs)
     if sc.has_calendar(case):
         # one month of delay on the closing link covers the steps (days) of the ring: the run must complete
         return sc.monitor_calendar(case, obs) or c01.monitor(case, obs)
@@ -226,12 +236,14 @@ def monitor(case, obs):
 
 
 def nontrivial(case, obs):
+    if sc.has_push_comp(case):
+        return case["push_merger"]["ring"]
     return sc.has_cycle(case)
 
 
 def extra_evidence(cases, obss):
     from collections import Counter
-    return {"cycle_classes": dict(Counter("calendar" if sc.has_calendar(c) else classify(c) for c in cases))}
+    return {"cycle_classes": dict(Counter("calendar" if sc.has_calendar(c) else "push_based_component" if sc.has_push_comp(c) else classify(c) for c in cases))}
 
 
 classifiers = c01.classifiers
